@@ -16,6 +16,9 @@ import (
 	"github.com/jackc/pgx/v5/pgproto3"
 	"pgregory.net/rapid"
 
+	"github.com/cossacklabs/acra/sqlparser"
+	pgdialect "github.com/cossacklabs/acra/sqlparser/dialect/postgresql"
+
 	"verif/internal/fix"
 	"verif/internal/hx"
 	"verif/internal/pgprog"
@@ -797,6 +800,7 @@ func comparePGRelay(vs *hx.Vs, dir string, sent, recv []byte, script []pgmsg, br
 // CheckPG plays the case and applies the oracles.
 func CheckPG(c PGCase) (hx.Vs, []string, bool) {
 	var vs hx.Vs
+	sqlparser.SetDefaultDialect(pgdialect.NewPostgreSQLDialect()) // process-global: reset for every case
 	cl := classSet{}
 	w := fix.TheWorld()
 	wd := &world{prot: func(kind string, plain []byte) []byte {
